@@ -270,6 +270,7 @@ PROPS = {
             {"name": "c07.node", "pkg": ROUTING, "test": "TestVerifC07Node", "shards_t": 16, "shards_q": 4, "crash_is_violation": True},
             {"name": "c07.late-registration", "pkg": ROUTING, "test": "TestVerifC07LateRegistration", "shards_t": 8, "shards_q": 4, "crash_is_violation": True},
             {"name": "c07.two-nodes", "pkg": ROUTING, "test": "TestVerifC07TwoNodes", "shards_t": 16, "shards_q": 8, "crash_is_violation": True},
+            {"name": "c07.slow-agent", "pkg": ROUTING, "test": "TestVerifC07SlowAgent", "shards_t": 12, "shards_q": 6, "crash_is_violation": True},
         ],
     },
     "C18": {
